@@ -27,6 +27,7 @@ REWRITES = {
     "R5": "`x.extend(y.iter().cloned())` -> `vec_extend_cloned(&mut x, &y)` (iterator adapters unsupported)",
     "R6": "visibility `pub(super)` / `pub(crate)` / private -> `pub`; struct fields made `pub` (open spec fns need them); #[derive(..)], #[struct_meta(..)] attributes on copied types dropped",
     "R9": "`C.iter().rev()` over a const slice literal C -> external fn C_r2_rev() whose spec is the reversed literal (semantics of slice::iter().rev() trusted)",
+    "R10": "`a | b` on two bool places (field / local reads) -> `a || b` (Verus rejects `|` on bool)",
     "R8": "`impl Trait` / `impl Fn(..)` argument position and generic closures: `to_expr: impl Fn(&FieldEntry) -> TokenStream` kept; only if listed per function",
 }
 
@@ -263,6 +264,11 @@ def rw_R9(t):
     return re.subn(r'(\w+::[A-Z_]+_r2)\(\)\.iter\(\)\.rev\(\)', r'\1_rev()', t)
 
 
+def rw_R10(t):
+    """`a | b` on two boolean places -> `a || b` (Verus rejects `|` on bool; operands are side-effect free field/local reads)"""
+    return re.subn(r'(\b[a-z_]\w*(?:\.[a-z_]\w*)*) \| ([a-z_]\w*(?:\.[a-z_]\w*)*\b)(?=\s*,)', r'\1 || \2', t)
+
+
 def rw_R3(t):
     """`if C {\n continue;\n }` directly in a for body -> wrap the remainder of that body."""
     n = 0
@@ -308,7 +314,7 @@ def rw_vis(t):
     return re.subn(r'\bpub\((?:super|crate)\)\s+', 'pub ', t)
 
 
-RW = {"R9": rw_R9, "R1": rw_R1, "R3": rw_R3, "R4": rw_R4, "R5": rw_R5, "R2u": rw_R2_uses}
+RW = {"R10": rw_R10, "R9": rw_R9, "R1": rw_R1, "R3": rw_R3, "R4": rw_R4, "R5": rw_R5, "R2u": rw_R2_uses}
 
 
 def _occ(text, anchor, n):
@@ -443,7 +449,9 @@ class Unit:
                 return m.group(1) + 'pub ' + m.group(3)
             text = re.sub(r'(?m)^(\s+)(pub(?:\([a-z]+\))?\s+)?(\w+\s*:)', pubf, text)
             text = re.sub(r'\((\s*)(?!pub)(\w)', r'(\1pub \2', text) if re.match(r'struct\s+\w+(<[^>]*>)?\s*\(', text) else text
-        self._use("R6", 1)
+        # helper attributes of derive macros on fields / variants inside the copied definition are dropped as well
+        text, nfa = re.subn(r'(?m)^[ \t]*#\[(?:struct_meta|parse|to_tokens)\([^\n]*\)\][ \t]*\n', '', text)
+        self._use("R6", 1 + nfa)
         keep = []
         for dl in dropped:
             m = re.match(r'#\[derive\((.*)\)\]', dl)
